@@ -17,6 +17,10 @@
 #include <kernel/solver/pcr.hpp>
 #include <kernel/solver/pmr.hpp>
 #include <kernel/solver/pcgnr.hpp>
+#include <kernel/solver/jacobi_precond.hpp>
+#include <kernel/solver/sor_precond.hpp>
+#include <kernel/solver/ssor_precond.hpp>
+#include <kernel/solver/chebyshev.hpp>
 #include <kernel/solver/fgmres.hpp>
 #include <kernel/solver/bicgstab.hpp>
 #include <cmath>
@@ -236,6 +240,12 @@ static void solve_with_filter(const std::string& kind, const QMat& a, const Filt
     Index fail_at = c.idx();
     pre = std::make_shared<MockPrecond>(n, m, fail_at);
   }
+  // FEAT's own preconditioners (C08): "jac w" | "sor w" | "ssor w" with damping w
+  std::shared_ptr<Solver::SolverBase<QVec>> fpre;
+  if(pk == "jac") fpre = Solver::new_jacobi_precond(a, filter, read_q(c));
+  else if(pk == "sor") fpre = Solver::new_sor_precond(PreferredBackend::generic, a, filter, read_q(c));
+  else if(pk == "ssor") fpre = Solver::new_ssor_precond(PreferredBackend::generic, a, filter, read_q(c));
+  std::shared_ptr<Solver::SolverBase<QVec>> anypre = fpre ? fpre : std::shared_ptr<Solver::SolverBase<QVec>>(pre);
   Cfg g;
   g.tol_rel = read_q(c); g.tol_abs = read_q(c); g.tol_abs_low = read_q(c);
   g.div_rel = read_q(c); g.div_abs = read_q(c); g.stag_rate = read_q(c);
@@ -243,33 +253,39 @@ static void solve_with_filter(const std::string& kind, const QMat& a, const Filt
   Q omega = read_q(c);
   if(kind == "pcg")
   {
-    Logged<Solver::PCG<QMat, Filter_>> s(a, filter, pre);
+    Logged<Solver::PCG<QMat, Filter_>> s(a, filter, anypre);
     run_session(s, pre.get(), g, n, c, o);
   }
   else if(kind == "rich")
   {
-    Logged<Solver::Richardson<QMat, Filter_>> s(a, filter, omega, pre);
+    Logged<Solver::Richardson<QMat, Filter_>> s(a, filter, omega, anypre);
     run_session(s, pre.get(), g, n, c, o);
   }
   else if(kind == "pcr")
   {
-    Logged<Solver::PCR<QMat, Filter_>> s(a, filter, pre);
+    Logged<Solver::PCR<QMat, Filter_>> s(a, filter, anypre);
     run_session(s, pre.get(), g, n, c, o);
   }
   else if(kind == "pmr")
   {
-    Logged<Solver::PMR<QMat, Filter_>> s(a, filter, pre);
+    Logged<Solver::PMR<QMat, Filter_>> s(a, filter, anypre);
     run_session(s, pre.get(), g, n, c, o);
   }
   else if(kind == "pcgnr")
   {
     // one preconditioner object as left and right preconditioner: its call counter covers both
-    Logged<Solver::PCGNR<QMat, Filter_>> s(a, filter, pre, pre);
+    Logged<Solver::PCGNR<QMat, Filter_>> s(a, filter, anypre, anypre);
+    run_session(s, pre.get(), g, n, c, o);
+  }
+  else if(kind == "cheb")
+  {
+    // fraction_min_ev = 1/2, fraction_max_ev = the omega token
+    Logged<Solver::Chebyshev<QMat, Filter_>> s(a, filter, Q(1) / Q(2), omega);
     run_session(s, pre.get(), g, n, c, o);
   }
   else if(kind == "bicgstab")
   {
-    Logged<Solver::BiCGStab<QMat, Filter_>> s(a, filter, pre);
+    Logged<Solver::BiCGStab<QMat, Filter_>> s(a, filter, anypre);
     run_session(s, pre.get(), g, n, c, o);
   }
   else
